@@ -127,13 +127,24 @@ func (resolver *referenceResolver) packageForToken(source cueast.Node, defaultPa
 		return defaultPackage
 	}
 
-	for importPath, pkg := range resolver.librariesMap {
-		if strings.Contains(filename, importPath) {
-			return pkg
+	// several libraries can match when the import path of one is a prefix of
+	// another's: the most specific one wins, whatever the iteration order.
+	bestMatch := ""
+	for importPath := range resolver.librariesMap {
+		if !strings.Contains(filename, importPath) {
+			continue
+		}
+
+		if len(importPath) > len(bestMatch) || (len(importPath) == len(bestMatch) && importPath < bestMatch) {
+			bestMatch = importPath
 		}
 	}
 
-	return defaultPackage
+	if bestMatch == "" {
+		return defaultPackage
+	}
+
+	return resolver.librariesMap[bestMatch]
 }
 
 func (resolver *referenceResolver) resolveImportAlias(alias string) string {
